@@ -74,6 +74,43 @@ theorem rotateArray_eq_map (q : quaternion.Quaternion s) (arr : Array (V3 s)) :
 theorem transformArray_eq_map (t : trs.TRS s) (arr : Array (V3 s)) :
     transformArray t arr = arr.map t.Transform := mapLoop_eq_map _ _
 
+private theorem inPlaceLoop_size (f : V3 s → V3 s) (i : Nat) (arr : Array (V3 s)) : (inPlaceLoop f i arr).size = arr.size := by
+  fun_induction inPlaceLoop f i arr with
+  | case1 i arr h ih => simpa using ih
+  | case2 i arr h => rfl
+
+private theorem inPlaceLoop_get (f : V3 s → V3 s) (i : Nat) (arr : Array (V3 s)) (j : Nat) :
+    (inPlaceLoop f i arr)[j]? = if i ≤ j then (arr[j]?).map f else arr[j]? := by
+  fun_induction inPlaceLoop f i arr with
+  | case1 i arr h ih =>
+    rw [ih]
+    by_cases h1 : i + 1 ≤ j
+    · have h2 : i ≤ j := by omega
+      have h3 : i ≠ j := by omega
+      simp [h1, h2, Array.getElem?_set_ne, h3]
+    · by_cases h2 : i = j
+      · subst h2
+        simp [h]
+      · have : ¬ i ≤ j := by omega
+        simp [h1, this, Array.getElem?_set_ne, h2]
+  | case2 i arr h =>
+    by_cases h1 : i ≤ j
+    · have : arr.size ≤ j := by omega
+      simp [h1, Array.getElem?_eq_none this]
+    · simp [h1]
+
+/-- the in-place loop (reads and writes the same array) is the pointwise map as well -/
+theorem inPlaceLoop_eq_map (f : V3 s → V3 s) (arr : Array (V3 s)) : inPlaceLoop f 0 arr = arr.map f := by
+  apply Array.ext'
+  apply List.ext_getElem?
+  intro j
+  have := inPlaceLoop_get f 0 arr j
+  simp only [Nat.zero_le, if_true] at this
+  simpa using this
+/-- `TRS.TransformInPlace` leaves the pointwise `Transform` of the old contents in the slice -/
+theorem transformInPlace_eq_map (t : trs.TRS s) (arr : Array (V3 s)) :
+    transformInPlace t arr = arr.map t.Transform := inPlaceLoop_eq_map _ _
+
 /-! ### the Go map operations, as seen by lookups -/
 
 namespace GoMap
